@@ -180,7 +180,7 @@ func SeedFor(name string) uint64 {
 // over the shards).
 func N(quick, thorough int) int {
 	if !Thorough() {
-		n := quick / Shards()
+		n := quick * int(envInt("VERIF_QUICK_SCALE", 1)) / Shards()
 		if n < 1 {
 			n = 1
 		}
